@@ -75,14 +75,16 @@ Definition mode (l : label) (_ : unit) : lmode :=
 Definition lthr (l : label) : Z :=
   match l with
   | WLock t | WUnlock t | WReg t _ _ | WFork t _ _ | WInsert t _ | WReap t _ _ | WSteal t _
-  | WDeliver t _ _ | WUnreg t _ | WKill t _ _ _ | WBlock t => t
+  | WDeliver t _ _ | WUnreg t _ | WKill t _ _ _ | WBlock t | WNone t | WChange t _ _ | WIdle t => t
   end.
 
 Definition actor (_ : state) (l : label) : option Z := Some (lthr l).
 
 Definition fp (_ : state) (l : label) : footprint var :=
   match l with
-  | WLock _ | WUnlock _ | WBlock _ => []
+  | WLock _ | WUnlock _ | WBlock _ | WIdle _ => []
+  | WNone _ => [(VProc, false)]            (* wait4 had nothing more to report (end of the drain, lock held) *)
+  | WChange _ _ _ => [(VProc, true)]       (* ground truth: a child changed state (the kernel's process table) *)
   | WReg _ id _ | WInsert _ id | WUnreg _ id => [(VTree, true); (VQueues, true); (VFrame id, true)]
   | WFork _ _ _ => [(VProc, true)]
   | WReap _ _ _ => [(VProc, true); (VTree, true); (VQueues, true)]
@@ -120,7 +122,7 @@ Proof. unfold step, step_gen. intros s t s' H. destruct (wlock s); [discriminate
 (* every label that touches the tree, a queue or the process table is performed with the lock held *)
 Lemma plain_holds : forall s l s', step s l = Some s' ->
   match l with
-  | WLock _ | WUnlock _ | WDeliver _ _ _ | WBlock _ => True
+  | WLock _ | WUnlock _ | WDeliver _ _ _ | WBlock _ | WChange _ _ _ | WIdle _ => True
   | _ => wlock s = Some (lthr l) /\ wlock s' = Some (lthr l)
   end.
 Proof.
@@ -193,7 +195,7 @@ Lemma step_writes_sound : forall s l s' v, step s l = Some s' -> ~ writes (fp s 
 Proof.
   intros s l s' v H Hn. unfold writes in Hn. unfold step, step_gen in H.
   destruct l; dmatch H; try (inversion H; subst; clear H);
-    destruct v as [| |fid|]; cbn [unchanged ints reaped with_ints]; try reflexivity;
+    destruct v as [| |fid|]; cbn [unchanged ints reaped with_ints with_k]; try reflexivity;
     try (exfalso; apply Hn; simpl; tauto);
     try (assert (Hne : id <> fid) by (intro; subst; apply Hn; simpl; tauto)).
   all: try (cbn [filter new_rec w_id];
@@ -261,9 +263,9 @@ Qed.
 (* non-vacuity: thread 0 registers interest 1 for pid 100; thread 1 runs the SIGCHLD drain and reaps
    it; thread 0 steals, delivers and unregisters.  While thread 1 is inside its critical section the
    conflicting unregistration by thread 0 is refused, and both lock calls were enabled before *)
-Definition ex_prefix : list label := [WLock 0; WReg 0 1 100; WUnlock 0].
+Definition ex_prefix : list label := [WLock 0; WReg 0 1 100; WUnlock 0; WChange 0 100 0].
 Definition ex_trace : list label :=
-  ex_prefix ++ [WLock 1; WReap 1 100 0; WUnlock 1; WLock 0; WSteal 0 1; WUnlock 0; WDeliver 0 1 0;
+  ex_prefix ++ [WLock 1; WReap 1 100 0; WNone 1; WUnlock 1; WLock 0; WSteal 0 1; WUnlock 0; WDeliver 0 1 0;
                 WLock 0; WUnreg 0 1; WUnlock 0; WBlock 0].
 
 Lemma wait_nonvacuous :
